@@ -499,6 +499,7 @@ func init() {
 			max := int(a[1].(int64))
 			sep, _ := a[2].(*StrV).isConc()
 			l := &LineV{Name: name, Sep: sep}
+			it.lines[name] = l
 			n := it.fresh(name+"_n", "BV64")
 			it.sol.assert(fmt.Sprintf("(and (bvuge %s (_ bv1 64)) (bvule %s (_ bv%d 64)))", n.T, n.T, max))
 			l.N = n
